@@ -1496,10 +1496,14 @@ impl<Octs: AsRef<[u8]>> Nsec<Octs, ParsedName<Octs>> {
     pub fn parse<'a, Src: Octets<Range<'a> = Octs> + ?Sized + 'a>(
         parser: &mut Parser<'a, Src>,
     ) -> Result<Self, ParseError> {
-        Ok(Nsec::new(
-            ParsedName::parse(parser)?,
-            RtypeBitmap::parse(parser)?,
-        ))
+        let next_name = ParsedName::parse(parser)?;
+        // RFC 4034, section 4.1.2: the type bit maps field of an NSEC
+        // record consists of one or more window blocks. (Only NSEC3 may
+        // have an empty bitmap, see RFC 6840, section 6.4.)
+        if parser.remaining() == 0 {
+            return Err(FormError::new("empty NSEC bitmap").into());
+        }
+        Ok(Nsec::new(next_name, RtypeBitmap::parse(parser)?))
     }
 }
 
@@ -2073,10 +2077,18 @@ impl<Octs> RtypeBitmap<Octs> {
             if data.len() > 256 * 34 {
                 return Err(RtypeBitmapErrorEnum::BadRtypeBitmap.into());
             }
+            let mut last_window = None;
             while !data.is_empty() {
                 // At least bitmap number and length must be present.
                 if data.len() < 2 {
                     return Err(RtypeBitmapErrorEnum::ShortInput.into());
+                }
+
+                // https://tools.ietf.org/html/rfc4034#section-4.1.2:
+                //  Blocks are present in the NSEC RR RDATA in increasing
+                //  numerical order.
+                if last_window.replace(data[0]) >= Some(data[0]) {
+                    return Err(RtypeBitmapErrorEnum::BadRtypeBitmap.into());
                 }
 
                 let len = (data[1] as usize) + 2;
@@ -2090,6 +2102,11 @@ impl<Octs> RtypeBitmap<Octs> {
                 }
                 if data.len() < len {
                     return Err(RtypeBitmapErrorEnum::ShortInput.into());
+                }
+                // https://tools.ietf.org/html/rfc4034#section-4.1.2:
+                //  Trailing zero octets in the bitmap MUST be omitted.
+                if data[len - 1] == 0 {
+                    return Err(RtypeBitmapErrorEnum::BadRtypeBitmap.into());
                 }
                 data = &data[len..];
             }
